@@ -173,6 +173,40 @@ func genC16DocStructural(t *rapid.T, did string) (*didtypes.DIDDocument, string)
 	doc.KeyAgreements = rel("agree", 0)
 	doc.CapabilityInvocations = rel("capinv", 0)
 	doc.CapabilityDelegations = rel("capdel", 0)
+	// service lists of 0-3 entries with an incomplete entry at any position (not only the last)
+	if nS := rapid.SampledFrom([]int{0, 0, 1, 2, 3, 3}).Draw(t, "nservices"); nS > 0 {
+		d := ""
+		for i := 0; i < nS; i++ {
+			sv := &didtypes.Service{Id: fmt.Sprintf("s%d", i), Type: "LinkedDomains", ServiceEndpoint: "https://e"}
+			switch rapid.SampledFrom([]string{"ok", "ok", "ok", "ok", "no-id", "no-type", "no-endpoint"}).Draw(t, fmt.Sprintf("service%d", i)) {
+			case "no-id":
+				sv.Id, d = "", d+"i"
+			case "no-type":
+				sv.Type, d = "", d+"t"
+			case "no-endpoint":
+				sv.ServiceEndpoint, d = "", d+"e"
+			default:
+				d += "+"
+			}
+			doc.Services = append(doc.Services, sv)
+		}
+		desc = append(desc, "svc["+d+"]")
+	}
+	// one defective top-level method at any position among the others
+	if len(doc.VerificationMethods) > 1 && rapid.IntRange(0, 5).Draw(t, "bad-method") == 0 {
+		i := rapid.IntRange(0, len(doc.VerificationMethods)-1).Draw(t, "bad-method-pos")
+		m := *doc.VerificationMethods[i]
+		switch rapid.IntRange(0, 2).Draw(t, "bad-method-kind") {
+		case 0:
+			m.PublicKeyBase58 = "0OIl"
+		case 1:
+			m.Type = ""
+		default:
+			m.Id = did
+		}
+		doc.VerificationMethods[i] = &m
+		desc = append(desc, fmt.Sprintf("bad-vm@%d/%d", i, len(doc.VerificationMethods)))
+	}
 	return doc, "structural:" + strings.Join(desc, " ")
 }
 
@@ -277,6 +311,12 @@ func genC16Doc(t *rapid.T, did string) (*didtypes.DIDDocument, string) {
 		{"service-no-type", func() { doc.Services[0].Type = "" }},
 		{"service-no-endpoint", func() { doc.Services[0].ServiceEndpoint = "" }},
 		{"no-services(valid)", func() { doc.Services = nil }},
+		{"two-services(valid)", func() {
+			doc.Services = append(doc.Services, &didtypes.Service{Id: "s2", Type: "LinkedDomains", ServiceEndpoint: "https://f"})
+		}},
+		{"incomplete-service-before-a-complete-one", func() {
+			doc.Services = append([]*didtypes.Service{{Id: "", Type: "LinkedDomains", ServiceEndpoint: "https://f"}}, doc.Services...)
+		}},
 		{"document-id-invalid", func() { doc.Id = "did:panacea:short" }},
 		{"document-id-empty(undetermined)", func() { doc.Id = "" }},
 		{"controller-field-of-method-garbage(valid)", func() { vm1.Controller = "whatever" }},
